@@ -1092,6 +1092,28 @@ def attr_lists(ctx):
         seen.add(sec)
         for asn4 in (False, True):
             out.append((asn4, [('%d' % p[1], p) for p in parts], 'unit-test UPDATE'))
+    # attributes whose decoding consults OTHER attributes: the PMSI tunnel label is a VNI when the UPDATE also
+    # carries an EVPN MP_REACH_NLRI and an encapsulation extended community (draft-ietf-bess-evpn-overlay) -
+    # whatever the position of the three in the attribute list.  Octets written here, MP_REACH from the constructor.
+    origin, lpref = bytes([0x40, 1, 1, 0]), bytes([0x40, 5, 4, 0, 0, 0, 100])
+    pmsis = [bytes([0xc0, 22, 9, 0, 6, 0x00, 0xea, 0x61, 10, 0, 0, 1]),
+             bytes([0xc0, 22, 21, 1, 6, 0xff, 0xff, 0xff]) + bytes(range(32, 48))]
+    mps = []
+    for v in ({'afi_safi': (25, 70), 'nexthop': '10.75.44.254',
+               'nlri': [{'type': 3, 'value': {'rd': '172.16.0.1:5904', 'eth_tag_id': 100, 'ip': '192.168.0.1'}}]},
+              {'afi_safi': (1, 128), 'nexthop': {'rd': '0:0', 'str': '2.2.2.2'},
+               'nlri': [{'label': [25], 'rd': '100:100', 'prefix': '11.11.11.0/24'}]}):
+        try:
+            mps.append(bytes(MpReachNLRI.construct(v)))
+        except Exception:     # noqa
+            pass
+    for mpb in mps:
+        for enc in (8, 9, 10):
+            ec = bytes([0xc0, 16, 8, 0x03, 0x0c, 0, 0, 0, 0, 0, enc])
+            for pm in pmsis:
+                out.append((True, [('1', origin), ('5', lpref), ('14', mpb), ('16', ec), ('22', pm)],
+                            'MP_REACH + encapsulation extended community + PMSI tunnel'))
+        out.append((False, [('1', origin), ('14', mpb), ('22', pmsis[0])], 'MP_REACH + PMSI tunnel'))
     # BGP-LS: MP_REACH (link-state NLRI) + LINK_STATE attribute, also an empty LINK_STATE attribute
     ls = [x for x in out if any(l == '29' for l, _ in x[1]) and any(l == '14' for l, _ in x[1])]
     for asn4, encs, _ in ls[:4]:
